@@ -26,7 +26,7 @@ rows = []
 for d in sorted(glob.glob('/verif/seeded/*/meta.json')):
     m = json.load(open(d))
     rows.append("| `%s` | %s | %s | %s |" % (m["id"], m["breaks_property"], m["needs_to_manifest"].replace("|", "/"),
-                ", ".join(m.get("detected_by") or (["none - outside the property as read here, see the text below"] if m.get("scope_note") else ["(not run yet)"])) + (" (not: %s)" % ", ".join(m["not_detected_by_other_checks_tried"]) if m.get("not_detected_by_other_checks_tried") else "")))
+                ", ".join(m.get("detected_by") or (["none - outside the property as read here, see the text below"] if m.get("scope_note") else (["**none (missed)**"] if m.get("miss_note") else ["(not run yet)"]))) + (" (not: %s)" % ", ".join(m["not_detected_by_other_checks_tried"]) if m.get("not_detected_by_other_checks_tried") else "")))
 s = open('/verif/DESIGN.md').read()
 a, b = "<!-- SEEDTABLE:BEGIN -->", "<!-- SEEDTABLE:END -->"
 if a in s:
